@@ -36,6 +36,7 @@ type c11Scenario struct {
 	World     *WorldSpec `json:"world"`
 	OddFrames []string   `json:"odd_arp_frames,omitempty"`
 	BadTargetLines int   `json:"bad_target_lines,omitempty"`
+	PositionalHost string `json:"host_argument_next_to_file,omitempty"`
 }
 
 var c11SpecialMACs = [][6]byte{
@@ -447,6 +448,12 @@ func runC11Compose(t *testing.T, c simrt.Chooser, o Opts) *Out {
 		}
 		w.Files[targetsFn] = strings.Join(ls, "\n") + "\n"
 		sc.BadTargetLines = nBadLines
+	}
+	if _, ok := w.Files[targetsFn]; ok && s.Mode != "subnet" && len(cached) > 0 && p.pct("positional", 20) {
+		// a host argument next to the target file (the file decides what is scanned): every probe
+		// still goes to the MAC of its own destination
+		w.Argv = append(w.Argv, ipStr(cached[p.n("posidx", len(cached))]))
+		sc.PositionalHost = w.Argv[len(w.Argv)-1]
 	}
 	w.NumCPU = p.pick("numcpu2", 1, 2, 4, 16)
 	sc.Spec, sc.World = s, w
